@@ -11,9 +11,9 @@ package bus
 //@   ensures (start&0xf != 0 || (end+1)&0xf != 0) ==> !isnil(ret1) && all(k, uint32, k < 1<<20 ==> b.segment[k] == old(b.segment[k]))
 //@   ensures (start&0xf == 0 && (end+1)&0xf == 0) ==> isnil(ret1) && all(k, uint32, k < 1<<20 ==> b.segment[k] == ite(start>>4 <= k && k <= end>>4, mem, old(b.segment[k])))
 //@   assigns b.segment
-//@   loop 1 invariant start>>4 <= x && (x <= (end>>4)+1 || x == start>>4)
-//@   loop 1 invariant all(k, uint32, k < 1<<20 ==> b.segment[k] == ite(start>>4 <= k && k < x, mem, old(b.segment[k])))
-//@   loop 1 decreases (end>>4) + 1 - x
+//@   loop 1 invariant start>>4 <= phi1 && (phi1 <= (end>>4)+1 || phi1 == start>>4)
+//@   loop 1 invariant all(k, uint32, k < 1<<20 ==> b.segment[k] == ite(start>>4 <= k && k < phi1, mem, old(b.segment[k])))
+//@   loop 1 decreases (end>>4) + 1 - phi1
 //@   loop 1 modifies b.segment
 
 //@ func (*Bus).EaRead
